@@ -109,7 +109,7 @@ class C17(Prop):
             "namer: tag sets of 1-4 tags from a pool (Painted, Target, Primary, chromosome names, two haplotypes in "
             "two spellings, known tags, the empty tag) given to make_scaffold_name in EVERY order a set iteration "
             "could produce (all permutations), first-row names with and without the ToL haplotype shape; "
-            "cli: generated (FASTA, Pretext AGP) pairs run through the pretext-to-asm CLI in fresh processes under "
+            "cli: generated (FASTA with N runs, scattered IUPAC codes and lower-case bases, Pretext AGP) pairs run through the pretext-to-asm CLI in fresh processes under "
             "PYTHONHASHSEED in {0, 7, 24, 101, random} with pieces carrying several tags, two working directories (absolute / relative paths), cold and warm "
             "index cache, the input assembly given as FASTA, AGP and TPF, and a shuffled sequence of in-process "
             "invocations; every output file compared byte for byte (log after stripping directories); ties: maps that cut slivers exactly in half remapped six times in one process with unrelated allocations in between. "
@@ -166,6 +166,10 @@ class C17(Prop):
         lines = []
         for sc in case["input"]["scaffolds"]:
             seq = "".join("N" * row[1] if row[0] == "G" else "".join(r.choices("ACGT", k=P.row_len(row))) for row in sc["rows"])
+            # a few IUPAC ambiguity codes and lower-case bases inside the contigs (the indexer makes
+            # 1-bp gaps of the former): where they fall relative to a buffer boundary must not matter
+            seq = "".join((r.choice("RYKMSWryn") if (c != "N" and r.random() < 0.01) else
+                           c.lower() if r.random() < 0.02 else c) for c in seq)
             lines.append(f">{sc['name']}\n" + "".join(seq[i : i + 60] + "\n" for i in range(0, len(seq), 60)))
         (d / "in.fa").write_text("".join(lines))
         ptx = case["pretext"]
